@@ -77,11 +77,17 @@ pub fn battery(tz: &TimeZone, raw_times: &[i64], heavy: bool) -> Vec<(String, St
     for &x in &tss {
         let t = ts(x).unwrap();
         let q = || format!("{} ns", x);
-        f.run("to_offset_info", q, "", || {
+        let info = f.run("to_offset_info", q, "", || {
             let i = tz.to_offset_info(t);
             (i.offset().seconds(), i.dst().is_dst(), i.abbreviation().len())
         });
-        f.run("to_offset", q, "", || tz.to_offset(t).seconds());
+        let off = f.run("to_offset", q, "", || tz.to_offset(t).seconds());
+        // every Ok value must lie inside its type's range: an Offset is within +-25:59:59
+        for o in info.map(|x| x.0).into_iter().chain(off) {
+            if !(-93_599..=93_599).contains(&o) {
+                f.push("lookup:to_offset/ok-offset-out-of-range".into(), format!("query {} ns: offset {} s is outside -93599..=93599", x, o));
+            }
+        }
         f.run("to_datetime", q, "", || tz.to_datetime(t));
         f.run("to_zoned", q, "", || {
             let z = t.to_zoned(tz.clone());
